@@ -22,6 +22,7 @@ wrapper object defines itself, picklability of the wrapped *class* object, the
 concrete wrapper class after a round trip.
 """
 import collections
+import hashlib
 import json
 import multiprocessing
 import os
@@ -143,6 +144,15 @@ class _Eval:
     def _is_w(self, x):
         return isinstance(x, self.L.CW)
 
+    def outer_protocol(self, stage):
+        """Protocol of the enclosing plain pickler: 'a plain-pickle round trip' covers every protocol the
+        standard library offers (0..HIGHEST and the default); drawn per (recipe, stage), reproducibly."""
+        choices = [None] + list(range(pickle.HIGHEST_PROTOCOL + 1))
+        h = hashlib.sha1(("%s|%s|%s" % (self.recipe["hash"], self.kw, stage)).encode()).digest()
+        proto = choices[h[0] % len(choices)]
+        self.stats["outer_protocol:%s" % ("default" if proto is None else proto)] += 1
+        return proto
+
     # -- one pickle round trip --------------------------------------------- #
     def roundtrip(self, s, i, stage, exp_wrapped):
         L = self.L
@@ -150,11 +160,13 @@ class _Eval:
         was_wrapper = False
         try:
             if self._is_w(s):
-                how, was_wrapper = "pickle.dumps(wrapper)", True
-                data = pickle.dumps(s)
+                proto = self.outer_protocol(stage)
+                how, was_wrapper = "pickle.dumps(wrapper, protocol=%r)" % proto, True
+                data = pickle.dumps(s, protocol=proto)
             elif i == 2:
-                how, was_wrapper = "pickle.dumps(wrap(unwrapped result, keep_wrapper=False))", True
-                data = pickle.dumps(L.wrap(s, keep_wrapper=False))
+                proto = self.outer_protocol(stage)
+                how, was_wrapper = "pickle.dumps(wrap(unwrapped result, keep_wrapper=False), protocol=%r)" % proto, True
+                data = pickle.dumps(L.wrap(s, keep_wrapper=False), protocol=proto)
             else:
                 how = "cloudpickle.dumps(unwrapped result)"
                 data = L.cloudpickle.dumps(s)
@@ -247,6 +259,8 @@ class _Eval:
         except Exception:  # noqa: BLE001
             self.plain_ok = False
         self.stats["plain_picklable" if self.plain_ok else "plain_unpicklable"] += 1
+        if "__slots__" in self.recipe["src"]:
+            self.stats["slotted_instance"] += 1
 
         self.chain(w, ["fresh", "rt1", "rt2", "rt3"], kw)
 
@@ -496,7 +510,12 @@ def xproc_finish(p, out, tier, V, replays, cov):
                     if r[1] == "TimeoutError":
                         V.inconc("xproc_task_timeout")
                         continue
-                    fails.append(("xproc_transport_fails", "the wrapper crosses the plain-pickle queue", "%s %s" % (r[1], r[2])))
+                    if t.get("control", "ok") != "ok":
+                        # premise not met: cloudpickle alone cannot carry the bare object over the same crossing(s)
+                        V.inconc("xproc_cloudpickle_cannot_carry_bare_object")
+                        cov.setdefault("xproc_premise_failures", []).append({"task": t["task"], "object": rec["desc"][:120], "wrapper": "%s %s" % (r[1], r[2][:160]), "bare_object_by_cloudpickle": t["control"][:240]})
+                        continue
+                    fails.append(("xproc_transport_fails", "the wrapper crosses the plain-pickle queue (cloudpickle alone carries the bare object over the same crossing)", "%s %s" % (r[1], r[2])))
                 else:
                     r = r[1]
                     if t["task"] == "arg" and r.get("pickler") != "pickle":
@@ -633,6 +652,8 @@ def main(tier):
             "comparisons_where_obj_raises": stats.get("comparisons_where_obj_raises", 0),
             "constructor_exceptions_compared": stats.get("ctor_raise_compared", 0),
             "pickle_round_trips": stats.get("roundtrips", 0),
+            "wrapper_pickles_by_outer_protocol": {k.split(":", 1)[1]: v for k, v in sorted(stats.items()) if k.startswith("outer_protocol:")},
+            "slotted_instances_evaluated": stats.get("slotted_instance", 0),
             "bare_object_plain_unpicklable": stats.get("plain_unpicklable", 0),
             "bare_object_plain_picklable": stats.get("plain_picklable", 0),
             "nontrivial_by_round_trip_depth": {str(d): sum(c for (k, kw, i), c in by_depth.items() if i == d) for d in (1, 2, 3)},
